@@ -436,14 +436,24 @@ func (a *arrayObject) _defineIdxProperty(idx uint32, desc PropertyDescriptor, th
 				return false
 			}
 		}
+		_, wasProp := existing.(*valueProperty)
+		_, isProp := prop.(*valueProperty)
 		if a.expand(idx) {
 			a.values[idx] = prop
-			a.objCount++
-			if _, ok := prop.(*valueProperty); ok {
+			if existing == nil {
+				a.objCount++
+			}
+			if isProp && !wasProp {
 				a.propValueCount++
+			} else if wasProp && !isProp {
+				a.propValueCount--
 			}
 		} else {
-			a.val.self.(*sparseArrayObject).add(idx, prop)
+			sa := a.val.self.(*sparseArrayObject)
+			sa.add(idx, prop)
+			if isProp {
+				sa.propValueCount++
+			}
 		}
 	}
 	return ok
